@@ -85,3 +85,9 @@ CLAIMS["C16"] = (
     "Decides rules R16.1-R16.5. Not decided: that emitted bytes have the configured statistical shape, rng distributions, nonce rewriting content, TCP fragmentation timing." + COMMON_NOTE,
     "path-sensitive reachability per field, call inventory, constant folding with hooks for rng draws, provenance search on go/ssa",
     "3/C16")
+
+CLAIMS["C19"] = (
+    "Accounting as code shape: path-sensitive reachability shows that no successful Read/Write return of a server session that can carry bytes bypasses the user's counter; the counters are registered under the authenticating cipher's user; the quota gate's refusal edge never queues an open response and records the quota status; roll-up consumes each history record exactly once on every path of the loop body, flushes the open bucket, and writes only into records it allocated (so snapshots are not mutated); loading a dump is Add(max(0, stored-current)).",
+    "Decides rules R19.1-R19.5. Not decided: totals over arbitrary timestamp histories, ordering after truncation, window sums, sessions racing with accounting (F8: counters are attached by the input goroutine — timing), partial multi-chunk writes that fail midway (F10)." + COMMON_NOTE,
+    "path-sensitive reachability, path enumeration of a loop body (linear use), provenance and alias slices on go/ssa",
+    "3/C19")
